@@ -9,7 +9,7 @@ def run(i):
     meta_p = os.path.join(V, 'seeded', i, 'meta.json')
     meta = json.load(open(meta_p))
     prop = meta.get('detect_with', meta['breaks_property'])  # a change may break a clause that another property's check owns
-    r = subprocess.run([os.path.join(V, 'tools/try_mutant.sh'), os.path.join(V, 'seeded', i, 'patch.diff'), prop, 'quick'], capture_output=True, text=True)
+    r = subprocess.run([os.path.join(V, 'tools/try_mutant.sh'), os.path.join(V, 'seeded', i, 'patch.diff'), prop, 'quick'], capture_output=True, text=True, errors='replace')
     out = r.stdout
     sites = sorted(set(re.findall(r'^  (\w[\w-]*) entry=(.*?) site=(.*?) x\d+', out, re.M)))
     verdict = 'detected' if 'VIOLATION' in out else ('patch-does-not-apply' if 'PATCH DOES NOT APPLY' in out else ('inconclusive' if 'INCONCLUSIVE' in out else 'missed'))
